@@ -46,6 +46,26 @@ Deepened (second pass; each is a necessary condition of a clause, stated on effe
   R5 mapped-verbatim    statement-level: the value taken from the buffer reaches mapping_fn, and mapping_fn's result reaches
                         write_all, without being re-assigned, partially written or mutably borrowed on the way
   R5 buffer-frame       nothing in the module changes the buffer field except the append in write and the take in the flush
+Generalised (round 5; every obligation above is kept, only how it is recognised changed):
+  R2/R3 entries         output_and_write_streams may reach the copier through the public entry or by itself (own pipe
+                        configuration / spawn helper / copier call): `piped` is stated on Command::stdout / stderr effects of
+                        BOTH public functions (wherever the calls are spelled); output-buffers on what the copier threads
+                        write to, in output_and_write_streams' terms (io::copy(child.<stream>, tee(<buffer>, <its writer>)) and
+                        Output.<stream> == that buffer); wait-after-copy also accepts a wait that is control-dependent on the
+                        Ok of a copier call that was handed the spawned child (`copy(&mut child, ..)?; child.wait()`);
+                        new: output-copier (the thread scope reached is the analysed one), output-after-copy
+  R5 field paths        the pending bytes / the marker are found by type (the one Vec<u8> / u8 field of MappedWrite or of a
+                        private struct stored in it) and named by their field path from `self`; the append may happen in a
+                        private function the per-part statements call (append effect in write's terms, exactly once per call:
+                        no condition and no loop inside the helper); the marker test may be a boolean helper (Cond.views) or
+                        a test of the buffer's last byte right after the append; the taken bytes may come out of a private
+                        function (`take() -> Vec`, `take_non_empty() -> Option<Vec>` built from literal Some / None or
+                        `cond.then(|| take)`): Some exactly when the buffer is non-empty counts as the non-empty guard;
+                        mapped-verbatim follows the value into such functions; buffer-frame scans every field of the path,
+                        `&mut <carrier struct>` borrows may only go to functions of the module, which may not assign through /
+                        hand on the borrow as a whole
+  verdict quality       shapes that are not understood (a write to the inner writer whose bytes are not recognised, a remainder
+                        flush behind a decision that is not understood) are UNPROVEN with what was not understood, not VIOLATED
 Not decided: scheduling and timing, kernel pipe behaviour, that io::copy delivers bytes in order.
 """
 from .lib.guards import conditions
@@ -172,19 +192,24 @@ def run(ctx, rep):
     # ---- R3: what every spawned thread computes (closure value with its captures in the terms of wc) ---------------------
     Ec = Effects(prog, sl, vocab={'std::io::copy': ('COPY', 0)})
     copies = [e for e in Ec.expand(sp, 'may') if e.kind == 'COPY']
-    streams = {}      # fld -> (reader, writer, canonical closure value, thread result)
-    for s in spawns:
-        clv = nf(s.args[1]) if len(s.args) > 1 else ('unknown',)
-        res = sl.apply_closure(strip(clv), (('unknown', 'scope'),)) if strip(clv)[0] in ('closure', 'fnitem') else None
-        res = nf(res) if res is not None else ('unknown', 'thread body')
-        cp = [x for x in walk(res) if x[0] == 'call' and x[1] == 'std::io::copy' and len(x[2]) == 2]
-        fld = None
-        if len(cp) == 1:
-            fld = next((f for f in ('stdout', 'stderr') if has_field(cp[0][2][0], f, is_child)), None)
-        if fld is not None and fld not in streams:
-            streams[fld] = (cp[0][2][0], cp[0][2][1], canon(strip(clv)), res, s)
-        else:
-            streams[None] = None
+    def thread_streams(spawn_effs):
+        """fld -> (reader, writer, canonical closure value, thread result, spawn effect) for the copier threads spawned by
+        the given Scope::spawn effects, in the terms of the function those effects were expanded from"""
+        out = {}
+        for s in spawn_effs:
+            clv = nf(s.args[1]) if len(s.args) > 1 else ('unknown',)
+            res = sl.apply_closure(strip(clv), (('unknown', 'scope'),)) if strip(clv)[0] in ('closure', 'fnitem') else None
+            res = nf(res) if res is not None else ('unknown', 'thread body')
+            cp = [x for x in walk(res) if x[0] == 'call' and x[1] == 'std::io::copy' and len(x[2]) == 2]
+            fld = None
+            if len(cp) == 1:
+                fld = next((f for f in ('stdout', 'stderr') if has_field(cp[0][2][0], f, is_child)), None)
+            if fld is not None and fld not in out:
+                out[fld] = (cp[0][2][0], cp[0][2][1], canon(strip(clv)), res, s)
+            else:
+                out[None] = None
+        return out
+    streams = thread_streams(spawns)
     rep.extra['copiers'] = {k: [vstr(v[0]), vstr(v[1])] for k, v in streams.items() if k}
     if set(streams) == {'stdout', 'stderr'} and len(copies) == 2:
         for fld, idx in (('stdout', 1), ('stderr', 2)):
@@ -285,12 +310,18 @@ def run(ctx, rep):
     ok = len(joins) > 0 and all(reraised(j.call, j.args) for j in joins) and reraised(scope_call, None)
     rep.check(ok, 'R3', 'panic-reraised', w(wc), 'a panicked copier thread re-raises in the caller', 'copier panics are swallowed')
 
-    piped = sorted(c.name.split('::')[-1] for g in [sp] + prog.closures_of(sp) for c in g.calls if c.name in ('std::process::Command::stdout', 'std::process::Command::stderr')
-                   and strip(sl.operand(g, c.args[1]))[0] == 'call' and strip(sl.operand(g, c.args[1]))[1] == 'std::process::Stdio::piped')
-    rep.check(piped == ['stderr', 'stdout'], 'R3', 'piped', w(sp), 'both streams are piped', 'piped streams: %s' % piped)
-    # the returned Output carries the buffers that were tee'd with the caller's writers, stream by stream
     ow = prog.find_one(r'^<std::process::Command as libherokubuildpack::command::CommandExt>::output_and_write_streams$')
     rep.analysed(ow)
+    # both pipes are requested on every public way to the copier: by the entry itself, by a private function it configures /
+    # spawns the command in, and — when output_and_write_streams does not go through the entry — on its own way as well
+    Ep = Effects(prog, sl, vocab={'std::process::Command::stdout': ('PIPE', 1), 'std::process::Command::stderr': ('PIPE', 1)})
+
+    def piped_from(entry):
+        return sorted({e.call.name.split('::')[-1] for e in Ep.expand(entry, 'may') if e.kind == 'PIPE' and len(e.args) > 1
+                       and strip(nf(e.args[1]))[0] == 'call' and strip(nf(e.args[1]))[1] == 'std::process::Stdio::piped'})
+    piped = {g.path.split('::')[-1]: piped_from(g) for g in (sp, ow)}
+    rep.check(all(v == ['stderr', 'stdout'] for v in piped.values()), 'R3', 'piped', w(sp), 'both streams are piped', 'piped streams: %s' % piped[sp.path.split('::')[-1]])
+    # the returned Output carries the buffers that were tee'd with the caller's writers, stream by stream
     # the call of spawn_and_write_streams — made by output_and_write_streams itself or by a private function it delegates to —
     # with its arguments in the terms of output_and_write_streams, helpers and private structs / tuples the buffers travel in
     # made transparent by the normal form
@@ -340,6 +371,35 @@ def run(ctx, rep):
         return contents(fl.get('stdout', ('unknown',))) == bufs[0] and contents(fl.get('stderr', ('unknown',))) == bufs[1]
     # (as written: two calls of one private constructor are two values; normalised: fields of private structs are visible)
     ok = ok and (carries_buffers(lambda v: v) or carries_buffers(nf))
+    # the same, stated on what the copier threads write to — whichever way output_and_write_streams gets to the copier
+    # (through the public entry, or configuring / spawning / copying by itself): in ITS terms, the writer io::copy drains
+    # child.stdout / child.stderr into is a tee of a buffer and the caller's writer for that stream, and the Output it
+    # returns carries those two (distinct) buffers
+    if not ok:
+        ow_spawns = [e for e in Et.expand(ow, 'may') if e.kind == 'TSPAWN']
+        ow_streams = thread_streams(ow_spawns) if len(ow_spawns) == 2 else {}
+        if set(ow_streams) == {'stdout', 'stderr'}:
+            tees = [tee_parts(ow_streams[f][1], nf) for f in ('stdout', 'stderr')]
+            ov = strip(nf(sl.mk_unwrap(sl.local(ow, 0), 1)))
+            if all(t is not None for t in tees) and ov[0] == 'agg' and (ov[1] or '').endswith('process::Output'):
+                bufs, users, fl = [t[0] for t in tees], [t[1] for t in tees], dict(ov[3])
+                ok = [u[2] for u in users if u[0] == 'param' and u[1] == ow.path] == [1, 2] and bufs[0] != bufs[1] \
+                    and not any(b[0] != 'call' or any(x[0] == 'param' and x[1] == ow.path and x[2] in (1, 2) for x in walk(b)) for b in bufs) \
+                    and contents(fl.get('stdout', ('unknown',))) == bufs[0] and contents(fl.get('stderr', ('unknown',))) == bufs[1]
+    # .. through the very thread scope the obligations R1 / R3 were established for (a second copier of its own is not analysed)
+    ow_scopes = [e for e in Es.expand(ow, 'may') if e.kind == 'TSCOPE']
+    if len(ow_scopes) == 1 and ow_scopes[0].call is scope_call:
+        rep.holds('R3', 'output-copier', w(ow), 'output_and_write_streams drains the child through the same scoped copier as spawn_and_write_streams')
+    else:
+        rep.unproven('R3', 'output-copier', w(ow), 'output_and_write_streams reaches %d thread scope(s) other than the one analysed for spawn_and_write_streams: their spawn / join / copy '
+                     'obligations are not established' % len([e for e in ow_scopes if e.call is not scope_call]))
+    # .. and it only returns an Output if the streams were copied: every way it can succeed depends on the entry / the copier
+    oalts = H.fn_alts(sl, sl, ow, thru=lambda name: name not in (wc.path, SW))
+    after = bool(oalts) and all(any((lambda g: g[0] == 'call' and (g[1] == SW or is_copier_call(g)))(strip(nf(H._try_subject(strip(d)), keep=(wc.path, SW)))) for d in ds) for _, ds in oalts)
+    if after:
+        rep.holds('R3', 'output-after-copy', w(ow), 'an Output is only returned if the stream copy succeeded')
+    else:
+        rep.unproven('R3', 'output-after-copy', w(ow), 'that output_and_write_streams only succeeds if the stream copy did could not be established')
     rep.check(ok, 'R3', 'output-buffers', w(ow), 'Output.stdout / .stderr are the buffers tee\'d with the stdout / stderr writers', 'the returned Output does not carry the per-stream tee buffers')
 
     # ---- R2 --------------------------------------------------------------------------------------------
@@ -359,9 +419,15 @@ def run(ctx, rep):
             a0 = e.args[0] if e.args else ('unknown',)
             xalts = H.value_alts(sl, a0[1], thru=thru) if a0[0] == 'unwrap' else []
             ok = ok and bool(xalts)
+            # .. or the wait itself only runs once the copier call has returned Ok (`copy(&mut child, ..)?; child.wait()`):
+            # the branch decisions around the wait, at every level of its call chain
+            gated = [H._try_subject(strip(subj)) for cd, _, subj in guards_of(Et, e)
+                     if cd.kind == 'variant' and cd.outcome and set(cd.outcome) <= H.OKISH and subj is not None]
             for p, ds in xalts:
                 pv = strip(nf(p, keep=keepw))
-                ok = ok and (is_copier_call(pv) or (is_child(pv) and any(is_copier_call(strip(nf(d, keep=keepw))) for d in ds)))
+                kept = any(is_copier_call(strip(nf(d, keep=keepw))) for d in ds) or \
+                    any(is_copier_call(g) and any(is_child(strip(x)) for x in walk(g)) for g in (strip(nf(d, keep=keepw)) for d in gated))
+                ok = ok and (is_copier_call(pv) or (is_child(pv) and kept))
         rep.check(ok, 'R2', 'wait-after-copy', c.where(), 'wait() runs on the child returned by the stream copier (after both streams hit EOF)',
                   'Child::wait is not sequenced after the stream copy')
     no_wait_inside = not any(e.kind == 'WAIT' for e in teffs)
@@ -436,6 +502,40 @@ def run(ctx, rep):
     un = prog.fn(MW + 'unwrap')
     rep.analysed(un)
     is_field = lambda v, fn, name: strip(v)[0] == 'field' and strip(v)[2] == name and self_of(fn)(strip(strip(v)[1]))
+    # where the pending bytes and the marker live: a field of MappedWrite, or of a private struct (of the module) that is a
+    # field of it — found by type, named by the path of field names from `self`
+    adt = prog.adt('libherokubuildpack::write::MappedWrite')
+    carriers = {}      # field path prefix -> path of the private struct stored there
+
+    def field_paths(a, pred, pre=(), depth=0):
+        out = []
+        for x in (a['variants'][0]['fields'] if a and a.get('kind') == 'struct' and len(a['variants']) == 1 else ()):
+            if pred(x['ty']):
+                out.append(pre + (x['name'],))
+            sub = None
+            hd = x.get('head') or ''
+            if depth < 3 and hd.startswith('libherokubuildpack::write::') and (x['ty'] == hd or x['ty'].startswith(hd + '<')):
+                try:
+                    sub = prog.adt(hd)
+                except Exception:
+                    sub = None
+            if sub is not None and sub.get('vis') != 'pub':
+                carriers[pre + (x['name'],)] = x['ty']
+                out.extend(field_paths(sub, pred, pre + (x['name'],), depth + 1))
+        return out
+    bufs = field_paths(adt, lambda ty: ty.startswith('std::vec::Vec<u8'))
+    marks = field_paths(adt, lambda ty: ty == 'u8')
+    BUF = bufs[0] if len(bufs) == 1 else ('buffer',)
+    MARK = marks[0] if len(marks) == 1 else ('marker_byte',)
+
+    def is_path(v, fn, path):
+        """v is `self.<path>` of fn"""
+        v = strip(v)
+        for name in reversed(path):
+            if not (v[0] == 'field' and len(v) == 3 and v[2] == name):
+                return False
+            v = strip(v[1])
+        return self_of(fn)(v)
 
     def inner_writes(fn):
         """effects that hand bytes to the inner writer, reached from fn"""
@@ -445,23 +545,26 @@ def run(ctx, rep):
         """inner.write_all(mapping_fn(take(buffer)))"""
         if e.kind != 'WRITE_ALL' or len(e.args) < 2:
             return False
-        dv = strip(e.args[1])
-        while dv[0] == 'call' and len(dv[2]) == 1 and dv[1] in H.VIEW_CALLS:      # `&v`, `v.as_slice()`, `v.as_ref()`: the same bytes
-            dv = strip(dv[2][0])
-        return dv[0] == 'call' and dv[1] == 'std::ops::Fn::call' and has_field(dv[2][0], 'mapping_fn', self_of(fn)) and \
-            any(x[0] == 'call' and x[1] == 'std::mem::take' and x[2] and is_field(x[2][0], fn, 'buffer') for x in walk(dv))
+        for norm in (lambda v: v, nf):      # as written / private functions that hand out the taken bytes made transparent
+            dv = strip(norm(e.args[1]))
+            while dv[0] == 'call' and len(dv[2]) == 1 and dv[1] in H.VIEW_CALLS:      # `&v`, `v.as_slice()`, `v.as_ref()`: the same bytes
+                dv = strip(dv[2][0])
+            if dv[0] == 'call' and dv[1] == 'std::ops::Fn::call' and has_field(dv[2][0], 'mapping_fn', self_of(fn)) and \
+                    any(x[0] == 'call' and x[1] == 'std::mem::take' and x[2] and is_path(x[2][0], fn, BUF) for x in walk(dv)):
+                return True
+        return False
     iw = {f.path: inner_writes(f) for f in (mw, un) + ((dr,) if dr is not None else ())}
     flushes = {p: [e for e in es if mapped_flush(e, prog.fns[p])] for p, es in iw.items()}
     for es in iw.values():
         for e in es:
             rep.analysed(e.call.fn)
 
-    is_marker = lambda v: is_field(v, mw, 'marker_byte')
+    is_marker = lambda v: is_path(v, mw, MARK)
 
     def nonempty_test(v, fn):
         """v is `buffer.is_empty()` on fn's own buffer field"""
         v = strip(v)
-        return v[0] == 'call' and v[1].endswith('::is_empty') and len(v[2]) == 1 and is_field(v[2][0], fn, 'buffer')
+        return v[0] == 'call' and v[1].endswith('::is_empty') and len(v[2]) == 1 and is_path(v[2][0], fn, BUF)
 
     def says_nonempty(v, oc, fn):
         """does "v evaluated to oc" say that fn's own buffer field is not empty: `!is_empty()`, `len() != 0`, `len() > 0`, `len() >= 1`"""
@@ -470,7 +573,7 @@ def run(ctx, rep):
             return oc is False
         if v[0] == 'bin' and len(v) == 4 and isinstance(oc, bool):
             op, a, b = v[1], strip(v[2]), strip(v[3])
-            is_len = lambda x: x[0] == 'call' and x[1].endswith('::len') and len(x[2]) == 1 and is_field(x[2][0], fn, 'buffer')
+            is_len = lambda x: x[0] == 'call' and x[1].endswith('::len') and len(x[2]) == 1 and is_path(x[2][0], fn, BUF)
             k = lambda x, n: x[0] == 'const' and type(x[1]) is int and x[1] == n
             if is_len(a) and k(b, 0):
                 return (op, oc) in (('Eq', False), ('Ne', True), ('Gt', True), ('Le', False))
@@ -481,13 +584,71 @@ def run(ctx, rep):
             if is_len(b) and k(a, 1):
                 return (op, oc) in (('Le', True), ('Gt', False))
         return False
+
+    def taker_some_iff_nonempty(subj, g, exact):
+        """subj is the call of a private function that hands out the pending bytes as an Option: every return of Some is
+        dominated by a test that says g's buffer is not empty (exact: .. by nothing else, and every return of None by a test
+        that says it is empty — the function yields Some exactly when there are pending bytes)"""
+        sn = H.option_fn_guards(sl, subj) if subj is not None else None
+        if sn is None or not sn[0]:
+            return False
+        nonempty = lambda views: any(says_nonempty(v, oc, g) for v, oc in views)
+        empty = lambda views: any(isinstance(oc, bool) and says_nonempty(v, not oc, g) for v, oc in views)
+        if not all(any(nonempty(vs) for vs in cds) for cds in sn[0]):
+            return False
+        return not exact or (all(all(nonempty(vs) for vs in cds) for cds in sn[0]) and all(any(empty(vs) for vs in cds) for cds in sn[1]))
+
+    def tail_is_marker(v):
+        """boolean value v says that the last byte of write's buffer field is the marker: `buffer.last() == Some(&marker)`,
+        `buffer.ends_with(&[marker])` — right after the append of a byte this is the statement that this byte is the marker"""
+        v = strip(v)
+        if v[0] == 'call' and v[1] == 'std::cmp::PartialEq::eq' and len(v[2]) == 2:
+            a, b = strip(v[2][0]), strip(v[2][1])
+        elif v[0] == 'bin' and v[1] == 'Eq' and len(v) == 4:
+            a, b = strip(v[2]), strip(v[3])
+        elif v[0] == 'call' and 'slice::<impl [T]>::ends_with' in v[1] and len(v[2]) == 2:
+            sfx = strip(v[2][1])
+            return is_path(H.peel_views(v[2][0]), mw, BUF) and sfx[0] == 'array' and len(sfx[1]) == 1 and is_marker(sfx[1][0])
+        else:
+            return False
+        for x, y in ((a, b), (b, a)):
+            if x[0] == 'call' and x[1].endswith('slice::<impl [T]>::last') and len(x[2]) == 1 and is_path(H.peel_views(x[2][0]), mw, BUF) \
+                    and y[0] == 'agg' and y[1] == 'std::option::Option' and y[2] == 'Some' and len(y[3]) == 1 and is_marker(y[3][0][1]):
+                return True
+        return False
     parts = H.partitions(sl, Ew, mw, 1, is_marker)
     # the per-part statements live in write itself (a loop) or in the closure handed to try_for_each & co. (captures are
     # expressed in write's terms either way)
-    appends = [c for g in [mw] + prog.closures_of(mw) for c in g.calls if not c.indirect and c.args and is_field(sl.operand(g, c.args[0]), mw, 'buffer') and
+    appends = [c for g in [mw] + prog.closures_of(mw) for c in g.calls if not c.indirect and c.args and is_path(sl.operand(g, c.args[0]), mw, BUF) and
                c.name.startswith('std::vec::Vec::<T, A>::') and c.name.rsplit('::', 1)[-1] in ('push', 'extend_from_slice', 'extend', 'append', 'insert', 'extend_from_within')]
     P = parts[0] if len(parts) == 1 else None
     body = P.body if P is not None else mw
+    # .. or in a private function the per-part statements hand `&mut self` / `&mut self.<struct with the buffer>` to: the
+    # append effect with its arguments in write's terms, positioned at the call through which it is reached; it happens
+    # exactly once per such call when nothing inside the helper(s) gates or repeats it
+
+    class ViaHelper:
+        def __init__(self, e, tc):
+            self.e, self.fn, self.bb, self.name, self.args = e, tc.fn, tc.bb, e.call.name, ()
+            self.elem = e.args[1] if len(e.args) > 1 else ('unknown',)
+            self.site = (e.call.fn.path, e.call.bb)
+            below = [cd for cd, _, _ in guards_of(Ea, e) if cd.fn is not tc.fn and prog.fns.get(cd.fn.parent if cd.fn.kind == 'Closure' else '') is not tc.fn]
+            self.once = not below and all(not c.fn.in_loop(c.bb) for c in [l.call for l in e.chain] + [e.call] if c.fn is not tc.fn) \
+                and sum(1 for c in tc.fn.calls if c.bb == tc.bb) == 1
+    APPENDS = ('push', 'extend_from_slice', 'extend', 'append', 'insert', 'extend_from_within')
+    Ea = Effects(prog, sl, vocab={'std::vec::Vec::<T, A>::' + n: ('APPEND', 0) for n in APPENDS})
+    direct_fns = [mw] + prog.closures_of(mw)
+    helper_sites = set()
+    for e in Ea.expand(mw, 'may'):
+        if e.kind != 'APPEND' or not e.args or e.call.fn in direct_fns or not is_path(nf(e.args[0]), mw, BUF):
+            continue
+        tc = next((c for c in [l.call for l in e.chain] if c.fn in direct_fns), None)
+        if tc is not None:
+            vh = ViaHelper(e, tc)
+            appends.append(vh)
+            helper_sites.add(vh.site)
+    elem_of = lambda a: a.elem if isinstance(a, ViaHelper) else sl.operand(body, a.args[1])
+    site_of = lambda a: a.site if isinstance(a, ViaHelper) else (a.fn.path, a.bb)
     # a partition that hands out the marker-free rest as a value of its own (a cutting function's second result, the cursor
     # after a cutting loop) has two appends: every marker-terminated part where the parts are visited, and the rest — once,
     # unconditionally — after the last of them
@@ -501,7 +662,7 @@ def run(ctx, rep):
     elif ok:
         ok = not tail_app
     if ok:
-        ok = P.is_elem(sl.operand(body, app.args[1]))
+        ok = P.is_elem(elem_of(app)) and (not isinstance(app, ViaHelper) or app.once)
         # unconditional within the loop body
         cds = conditions(body, app.bb, sl)
         ok = ok and not [cd for cd in cds if cd.kind == 'bool'] and all(P.is_elem(cd.subject) or P.is_next_cond(cd) for cd in cds if cd.kind == 'variant' and cd.subject is not None)
@@ -523,7 +684,10 @@ def run(ctx, rep):
         fc = H.top_call(fe, body)
         ok = P.in_body(body, fc.bb)
         cds = [cd for cd in conditions(body, fc.bb, sl) if cd.kind == 'bool']
-        test = [cd for cd in cds if any(oc is True and P.ends_with_marker(v, is_marker) for v, oc in cd.views())]
+        # (byte by byte: a test of the buffer's last byte, made after that byte's append in the same iteration, is the same statement)
+        after_app = lambda cd: P.kind == 'bytes' and app is not None and app.fn is body and cd.fn is body and cd.sw_bb != app.bb and body.dominates(app.bb, cd.sw_bb)
+        marker_test = lambda cd, v, oc: oc is True and (P.ends_with_marker(v, is_marker) or (after_app(cd) and tail_is_marker(v)))
+        test = [cd for cd in cds if any(marker_test(cd, v, oc) for v, oc in cd.views())]
         # besides the marker test only "the buffer is not empty" may guard the flush (always true after the append)
         rest = [cd for cd in cds if cd not in test and not any(says_nonempty(v, oc, mw) for v, oc in cd.views())]
         # parts that are marker-terminated by construction need no test (and the marker-free rest is not a part: a flush
@@ -538,36 +702,61 @@ def run(ctx, rep):
     malts = H.fn_alts(sl, sl, mw)
     ok = bool(malts) and all(is_len_of_buf(p, mw) for p, _ in malts)
     rep.check(ok, 'R5', 'returns-len', w(mw), 'returns Ok(buf.len())', 'mapped write does not consume the whole slice')
-    adt = prog.adt('libherokubuildpack::write::MappedWrite')
-    fields = {x['name']: x['ty'] for x in adt['variants'][0]['fields']}
-    rep.check(fields.get('buffer', '').startswith('std::vec::Vec<u8'), 'R5', 'buffer-field', '%s:%s' % (adt['file'], adt['line']), 'pending bytes live in a field (state survives across write calls)', 'no buffer field')
-    rep.check(dr is not None and len(flushes[dr.path]) > 0, 'R5', 'drop-flushes', w(dr) if dr else '-', 'Drop flushes the remainder', 'the remainder is lost when the writer is dropped')
+    rep.check(len(bufs) == 1, 'R5', 'buffer-field', '%s:%s' % (adt['file'], adt['line']), 'pending bytes live in a field (state survives across write calls)', 'no buffer field')
+    # (an entry point that does write to the inner writer, but bytes that are not understood as mapping_fn(take(buffer)), is
+    # not a definite breach of THIS clause: flush-shape reports the write)
+    not_understood = lambda g: g is not None and bool(iw[g.path]) and not flushes[g.path]
+    if not_understood(dr):
+        rep.unproven('R5', 'drop-flushes', w(dr), 'Drop writes to the inner writer, but what it writes is not understood as the mapping of the taken buffer')
+    else:
+        rep.check(dr is not None and len(flushes[dr.path]) > 0, 'R5', 'drop-flushes', w(dr) if dr else '-', 'Drop flushes the remainder', 'the remainder is lost when the writer is dropped')
     f1 = sorted({H.top_call(e).bb for e in flushes[un.path]})
     tk = [c for c in un.calls if c.is_(*TAKES) and c.args and is_field(sl.operand(un, c.args[0]), un, 'inner')]
     ok = len(f1) == 1 and len(tk) == 1 and tk[0].bb in un.reachable(f1[0]) and f1[0] not in un.reachable(tk[0].bb)
-    rep.check(ok, 'R5', 'unwrap', w(un), 'unwrap flushes the remainder, then takes the inner writer (the later Drop finds nothing to write to)', 'unwrap does not flush-then-take')
+    if not ok and not_understood(un):
+        rep.unproven('R5', 'unwrap', w(un), 'unwrap writes to the inner writer, but what it writes is not understood as the mapping of the taken buffer')
+    else:
+        rep.check(ok, 'R5', 'unwrap', w(un), 'unwrap flushes the remainder, then takes the inner writer (the later Drop finds nothing to write to)', 'unwrap does not flush-then-take')
     every = [e for es in iw.values() for e in es]
     shaped = [e for es in flushes.values() for e in es]
     site = lambda e: (e.call.fn.path, e.call.bb)
     # every entry point reaches exactly one write to the inner writer, and that write has the mapped shape
     ok = len(every) == len(shaped) and all(len(es) <= 1 for es in flushes.values()) and len(flushes[mw.path]) == 1
     flw = prog.fns[sorted({site(e) for e in shaped})[0][0]] if shaped else mw
-    rep.check(ok, 'R5', 'flush-shape', w(flw), 'flush = inner.write_all(mapping_fn(take(buffer)))', 'flush does not write mapping_fn(take(buffer))')
+    # every write hands over the result of one mapping_fn call on an argument that was not understood as the taken buffer
+    mapped_something = lambda e: e.kind == 'WRITE_ALL' and len(e.args) > 1 and (lambda dv: dv[0] == 'call' and dv[1] == 'std::ops::Fn::call' and has_field(dv[2][0], 'mapping_fn'))(H.peel_views(nf(e.args[1])))
+    if not ok and every and all(e in shaped or mapped_something(e) for e in every) and all(len(es) <= 1 for es in iw.values()) and len(iw[mw.path]) == 1:
+        rep.unproven('R5', 'flush-shape', w(flw), 'what is handed to mapping_fn before the write to the inner writer is not understood as mem::take(<the buffer field>): %s'
+                     % '; '.join(sorted({vstr(nf(e.args[1]))[:90] for e in every if e not in shaped})))
+    else:
+        rep.check(ok, 'R5', 'flush-shape', w(flw), 'flush = inner.write_all(mapping_fn(take(buffer)))', 'flush does not write mapping_fn(take(buffer))')
     # the remainder flush of Drop and unwrap only runs with a non-empty buffer: a guard at any level of the call chain
     guard = None
+    opaque = []     # decisions around a remainder flush that are neither understood as `non-empty` nor about the inner writer
+    opaque += ['a write to the inner writer in %s' % g.path.split('::')[-1] for g in (dr, un) if not_understood(g)]
     if dr is not None and flushes[dr.path] and flushes[un.path]:
         where = set()
         good = True
         for g in (dr, un):
             for e in flushes[g.path]:
+                opaque += [vstr(subj if subj is not None else (views[0][0] if views else ('unknown',)))[:60] for cd, views, subj in guards_of(Ew, e)
+                           if not any(has_field(x, 'inner') for x in [subj if subj is not None else ('unknown',)] + [v for v, _ in views])]
                 hit = [cd for v, oc, cd in H.guard_views(Ew, e) if says_nonempty(v, oc, g)]
+                # .. or the pending bytes come out of a private function that only hands them out when there are any
+                hit += [cd for cd, _, subj in guards_of(Ew, e) if cd.kind == 'variant' and cd.outcome and set(cd.outcome) <= {'Some', 'Ok'}
+                        and taker_some_iff_nonempty(subj, g, False)]
                 good = good and bool(hit)
                 where.update(cd.fn.path.split('::')[-1] for cd in hit[:1])
         if good:
             guard = 'in ' + ' / '.join(sorted(where))
-    rep.check(guard is not None, 'R5', 'nonempty-remainder-guard', w(flw), 'the remainder is only mapped and written when the buffer is non-empty (%s)' % guard,
-              'on drop / unwrap the mapping of an EMPTY remainder is emitted: input "a\\n" through line_mapped(add_prefix("> ")) yields "> a\\n> " — the property '
-              'only allows the mapping of the non-empty remainder', {'reproducer': 'line_mapped(out, add_prefix("> ")) <- "a\\n" ; drop  =>  "> a\\n> "'})
+    if guard is None and opaque:
+        # a definite breach only when nothing but the presence of the inner writer gates the flush
+        rep.unproven('R5', 'nonempty-remainder-guard', w(flw), 'that the remainder is only mapped and written when the buffer is non-empty is not established: the flush on drop / unwrap '
+                     'is gated by %s, which is not understood as a non-empty test of the buffer field' % '; '.join(sorted(set(opaque)))[:200])
+    else:
+        rep.check(guard is not None, 'R5', 'nonempty-remainder-guard', w(flw), 'the remainder is only mapped and written when the buffer is non-empty (%s)' % guard,
+                  'on drop / unwrap the mapping of an EMPTY remainder is emitted: input "a\\n" through line_mapped(add_prefix("> ")) yields "> a\\n> " — the property '
+                  'only allows the mapping of the non-empty remainder', {'reproducer': 'line_mapped(out, add_prefix("> ")) <- "a\\n" ; drop  =>  "> a\\n> "'})
 
     # ---- R5, deepened: who may write to the inner writer, under which conditions, and with which bytes ---------------------
     mo = sorted(n for n, _ in overrides.get('Map', []))
@@ -618,6 +807,8 @@ def run(ctx, rep):
                 return True
             if innerish(sv, g):
                 return True
+            if taker_some_iff_nonempty(sv, g, True):
+                return True
             if sv[0] == 'call' and sv[1] == H.OPT + 'filter' and len(sv[2]) == 2 and innerish(sv[2][0], g):
                 r, neg = sl.apply_closure(sv[2][1], (sl.mk_unwrap(sv[2][0], 1),)), False
                 while r is not None and r[0] == 'un' and r[1] == 'Not':
@@ -629,7 +820,8 @@ def run(ctx, rep):
         # a condition of the entry function itself is also read as written (the chain's substitution renames loop elements)
         for v, oc in list(views) + (list(cd.views()) if own else []):
             sv = strip(v)
-            if oc is True and g is mw and own and P is not None and P.ends_with_marker(v, is_marker):
+            if oc is True and g is mw and own and P is not None and (P.ends_with_marker(v, is_marker) or (
+                    P.kind == 'bytes' and app is not None and app.fn is body and cd.fn is body and cd.sw_bb != app.bb and body.dominates(app.bb, cd.sw_bb) and tail_is_marker(v))):
                 return True
             if says_nonempty(v, oc, g):
                 return True
@@ -668,7 +860,7 @@ def run(ctx, rep):
             good = good and bool(o2) and all(c2.is_('std::mem::take') for c2 in o2)
             take_sites.update((c2.fn.path, c2.bb) for c2 in (o2 or ()))
         verbatim = verbatim and good
-        take_sites.update(x[3] for x in walk(strip(e.args[1])) if x[0] == 'call' and x[1] == 'std::mem::take' and len(x) == 4 and x[3])
+        take_sites.update(x[3] for v in (strip(e.args[1]), nf(e.args[1])) for x in walk(v) if x[0] == 'call' and x[1] == 'std::mem::take' and len(x) == 4 and x[3])
     edited = sorted({y[8:] for y in H.WHY if y.startswith('edited: ')})
     if verbatim:
         rep.holds('R5', 'mapped-verbatim', w(flw), 'mapping_fn gets the taken buffer unmodified, the inner writer gets the mapping result unmodified')
@@ -680,14 +872,27 @@ def run(ctx, rep):
     # frame: the pending bytes only change by the append in write and the take in the flush
     okay_sites = set(take_sites)
     if app is not None and len(tail_app) == (1 if P is not None and P.has_tail else 0):
-        okay_sites.update((c.fn.path, c.bb) for c in [app] + tail_app)
+        okay_sites.update(site_of(c) for c in [app] + tail_app)
     foreign = []
+    # (the buffer inside a private struct: a `&mut` borrow of that struct as a whole may only be handed to functions of the
+    # module — which are scanned themselves, also for what they do with the borrow as a whole)
+    trusted = lambda c: c is not None and not c.indirect and prog.fns.get(c.name) is not None and in_module(prog.fns[c.name]) and prog.fns[c.name].kind != 'Closure'
+    carrier_refs = tuple('&mut ' + t for t in carriers.values() if any(BUF[:len(k)] == k for k, t2 in carriers.items() if t2 == t))
     for f in sorted(module_fns, key=lambda f: f.path):
-        for kind, g, bb, c, idx in H.field_mutations(prog, f, 'buffer'):
-            if kind == 'call' and c is not None and idx == 0 and ((g.path, bb) in okay_sites or (c.name or '').rsplit('::', 1)[-1] in CAPACITY_ONLY):
-                continue
-            foreign.append('%s in %s' % ((c.name or 'indirect call').split('::')[-1] if c is not None else kind, f.path.split('::')[-1]))
-            rep.analysed(f)
+        for depth, fname in enumerate(BUF):
+            nxt = BUF[depth + 1] if depth + 1 < len(BUF) else None
+            for kind, g, bb, c, idx in H.field_mutations(prog, f, fname, skip_next=nxt):
+                if nxt is None and kind == 'call' and c is not None and idx == 0 and ((g.path, bb) in okay_sites or (c.name or '').rsplit('::', 1)[-1] in CAPACITY_ONLY):
+                    continue
+                if nxt is not None and kind == 'call' and trusted(c):
+                    continue
+                foreign.append('%s in %s' % ((c.name or 'indirect call').split('::')[-1] if c is not None else kind, f.path.split('::')[-1]))
+                rep.analysed(f)
+        for i, ty in enumerate(f.args or ()):
+            if ty in carrier_refs and f.kind != 'Closure':
+                for what in H.whole_ref_mutations(prog, f, i + 1, trusted):
+                    foreign.append('%s in %s' % (what, f.path.split('::')[-1]))
+                    rep.analysed(f)
     if foreign:
         rep.unproven('R5', 'buffer-frame', w(mw), 'the pending bytes are also changed by %s: what gets mapped is not the segment that was written' % ', '.join(sorted(set(foreign)))[:160])
     else:
